@@ -454,6 +454,8 @@ class IH5Dataset(IH5Node):
         self._guard_read_only()
         if self._cidx != self._last_idx:
             raise ValueError(f"Cannot set '{key}', node is not from the latest patch!")
+        if _is_del_mark(val):
+            raise ValueError(f"Value '{val}' is forbidden, cannot assign!")
         # if we're in the latest patch, allow writing as usual (pass through)
         self._files[-1][self._gpath][key] = val  # type: ignore
 
